@@ -975,6 +975,34 @@ func (h *Hist) step() {
 			n = b
 		}
 		h.X(tz, "switch", n)
+	case "lock-twin-probe":
+		// HEAD sits on a branch whose name is another name plus the kind of suffix programs give their temporary files
+		// (`x.lock`, `x.tmp`, `x~`, `x.new`); then the shorter name is written in every way a branch file is written:
+		// HEAD's branch must survive with its bytes
+		base := r.pick([]string{"topic", "t", "main", "dev"})
+		if b, ok := h.pickBranch(); ok && r.chance(1, 2) {
+			base = b
+		}
+		suf := r.pick([]string{".lock", ".lock", ".tmp", "~", ".new", ".orig"})
+		h.X(tz, "switch", "-c", base+suf)
+		switch r.intn(4) {
+		case 0, 1:
+			h.X(tz, "branch", base)
+		case 2:
+			if len(h.g.Commits) > 0 {
+				h.X(tz, "update-ref", "refs/heads/"+base, h.g.Commits[r.intn(len(h.g.Commits))])
+				h.X(tz, "switch", base+suf)
+			}
+		default:
+			h.X(tz, "switch", base)
+			h.W("write", h.randPath(), h.content())
+			h.X(tz, "add", ".")
+			h.X(tz, "commit", "-m", "on the shorter name")
+			h.X(tz, "switch", base+suf)
+		}
+		h.X(tz, "branch", "--list")
+		h.X(tz, "rev-parse", "HEAD")
+		h.X(tz, "log", "-n", "1")
 	case "switch-c":
 		h.X(tz, "switch", "-c", h.newBranchName())
 	case "reset":
